@@ -200,7 +200,7 @@ var (
 	vEdgeCJK    = []rune("米飯麺茶水魚肉卵豆腐한글かな")
 	vEdgeLatin  = []rune("éèêëàâäôöùûüçñßøåÉÖÀÐÿµªºþ")
 	vEdgeOther  = []rune("אבגשעبتثकखगกขด")
-	vInnerWild  = []string{" ", "  ", "/", ".", "_", "'", "(", ")", "%", "+", "&", ",", "\"", ":", "-", "#", "=", ", ", ": ", " - ", " #", "\\", "\": ", "\\ ", "…", "’", "‘", " 2 #", " 12 #", "\t", "\t "}
+	vInnerWild  = []string{" ", "  ", "/", ".", "_", "'", "(", ")", "%", "+", "&", ",", "\"", ":", "-", "#", "=", ", ", ": ", " - ", " #", "\\", "\": ", "\\ ", "…", "’", "‘", " 2 #", " 12 #", "\t", "\t ", "\", ", "\",\"", "\"\"", ",\""}
 	vInnerTame  = []string{" ", "/", ".", "_", "-", "'", "&", "+", "%", "(", ")", ",", "<", ">", ";", "…", "  ", "’", "‘"}
 	// the top of the basic plane (lead byte EF: halfwidth and fullwidth forms, compatibility ideographs, ligatures,
 	// private use) and characters beyond it (four bytes)
